@@ -154,6 +154,22 @@ pub fn cases(tier: &str) -> Vec<Value> {
             }
         }
     }
+    // (e) the response code: every value of the 12-bit code (quick: 0..=23 and the boundary values
+    // of the upper 8 bits, which travel in the OPT record) x the client's EDNS use x transport.
+    // A client that sent no OPT must still be told what the upstream said.
+    let rc_all: Vec<u16> = if thorough { (0..4096).collect() } else { (0..=23).chain([32, 255, 256, 0x7f0, 0x800, 0xff0, 0xfff]).collect() };
+    for rc in rc_all {
+        for e in ["none", "plain", "do"] {
+            for tr in ["udp", "tcp"] {
+                for (an, ns) in [(vec![], vec![]), (vec![0], vec![3])] {
+                    if thorough && rc > 23 && (e == "do" || !an.is_empty()) && rc % 16 != 0 && rc % 16 != 15 {
+                        continue;
+                    }
+                    out.push(json!({"engine":"enet","check":"c03","q":{"name":"www.example.com","type":1,"class":1,"edns":e,"flags":"rd","transport":tr},"r":{"rcode":rc,"an":an,"ns":ns,"ar":[],"compress":true,"opt":true}}));
+                }
+            }
+        }
+    }
     // (d) the same question asked three times with time passing in between, the upstream's TTL
     // changing from reply to reply: whatever the client gets -- relayed or from the cache -- is the
     // most recent upstream reply with its TTLs reduced by exactly the whole seconds since THAT reply
@@ -631,7 +647,7 @@ pub fn run(tier: &str, replay: Option<Value>) -> ! {
     let agg = netrun::run_sharded(&mut rep, "C03", tier, cases, 16);
     rep.cov("evaluations", agg.executions);
     rep.cov("distinct_nontrivial", agg.classes.len() as u64);
-    rep.cov("rule", "one fault-free exchange per execution on a fresh in-process DnsService ([::1] listener): (a) every query shape (3 names x 5 types x 2 classes x 5 EDNS x 3 flag sets x UDP/TCP) x fixed replies; (b) fixed queries x every reply shape (rcodes x one section over all record lists of length <=2 from a 9-record alphabet (incl. records whose names share a suffix first written inside an earlier record's rdata), the other sections in {[],[1]} x compression x OPT absent / last / first / in the middle of the additional section); (c) pairs of exchanges on one service whose second question differs from the first in one component (class x3, type x2 (QTYPE ANY is answered locally and therefore not part of this alphabet), name x2, CD, DO, EDNS, or nothing) x transport x order, the second answered differently upstream: the second client must get the upstream's answer to ITS question, or -- only for the identical question -- the first answer; (d) the same question asked three times with 1 s / 3 s in between while the upstream's TTL changes (2 s / 300 s per reply, all combinations): every answer is the most recent upstream reply with TTLs reduced by exactly the whole seconds since that reply. distinct = (rcode, section sizes, transport) classes");
+    rep.cov("rule", "one fault-free exchange per execution on a fresh in-process DnsService ([::1] listener): (a) every query shape (3 names x 5 types x 2 classes x 5 EDNS x 3 flag sets x UDP/TCP) x fixed replies; (b) fixed queries x every reply shape (rcodes x one section over all record lists of length <=2 from a 9-record alphabet (incl. records whose names share a suffix first written inside an earlier record's rdata), the other sections in {[],[1]} x compression x OPT absent / last / first / in the middle of the additional section); (c) pairs of exchanges on one service whose second question differs from the first in one component (class x3, type x2 (QTYPE ANY is answered locally and therefore not part of this alphabet), name x2, CD, DO, EDNS, or nothing) x transport x order, the second answered differently upstream: the second client must get the upstream's answer to ITS question, or -- only for the identical question -- the first answer; (e) every response code (quick: 0..=23 and the boundary values of the upper 8 bits; thorough: all 4096) x client EDNS none/plain/DO x transport x empty / non-empty sections; (d) the same question asked three times with 1 s / 3 s in between while the upstream's TTL changes (2 s / 300 s per reply, all combinations): every answer is the most recent upstream reply with TTLs reduced by exactly the whole seconds since that reply. distinct = (rcode, section sizes, transport) classes");
     rep.cov("exhaustive", true);
     rep.cov("outcome_classes", serde_json::json!(agg.classes));
     rep.cov("workers_in_private_netns", agg.isolated_workers as u64);
